@@ -307,13 +307,17 @@ def sym_max(*args, **kw):
 def placeholder(v):
     """Opaque token for a symbolic number travelling through str / lxml / re."""
     ctx = C.cur()
+    # simplify only to recognise a number printed before; the token maps back to
+    # the ORIGINAL term (z3.simplify rewrites `x*y >= 0` inside abs() into sign
+    # conditions on the factors, which hurts later queries)
     t = z3.simplify(v.t)
     tid = t.get_id()
     tok = ctx.ph_by_id.get(tid)
     if tok is None:
         tok = f"{PH_OPEN}{len(ctx.placeholders)}{PH_OPEN}"
-        ctx.placeholders[tok] = t
+        ctx.placeholders[tok] = v.t
         ctx.ph_by_id[tid] = tok
+        ctx.keepalive.append(t)
     return tok
 
 
